@@ -1042,6 +1042,55 @@ func (h *supH) directedRestartedDependency(emit func(string)) {
 	}
 }
 
+// directedLateLookup: a dependency that has already been skipped (or failed) when the dependent gets
+// round to looking it up — the dependent waited for another, slower dependency first (Go's map order
+// decides; the scenario is repeated). The dependent must still be skipped.
+func (h *supH) directedLateLookup(emit func(string)) {
+	for rep := 0; rep < 6; rep++ {
+		for _, mode := range []string{"skipped", "failed"} {
+			emit("sup coarse 0")
+			emit("proc a no 0 - 0 0 0 -")
+			if mode == "skipped" {
+				emit("proc b no 0 - 0 0 0 a:s")
+			} else {
+				emit("proc b no 0 - 0 0 0 -")
+			}
+			emit("proc x no 0 - 0 0 0 -")
+			emit("proc c no 0 - 0 0 0 x:c,b:s")
+			emit("proc d no 0 - 0 0 0 c:s")
+			if mode == "skipped" {
+				emit("deps b a:s")
+			}
+			emit("deps c x:c,b:s")
+			emit("deps d c:s")
+			emit("init")
+			emit("s call 0 run")
+			h.drain(emit)
+			if mode == "skipped" {
+				emit("s exit a 3")
+			} else {
+				emit("s exit b 2")
+			}
+			h.drain(emit)
+			emit("s exit x 0")
+			h.drain(emit)
+			for i := 0; i < 8 && !h.dead; i++ {
+				al := h.aliveNames()
+				if len(al) == 0 {
+					break
+				}
+				emit(fmt.Sprintf("s exit %s 0", al[0]))
+				h.drain(emit)
+			}
+			if len(h.aliveNames()) == 0 && len(h.enabledKeys()) == 0 {
+				emit("end quiescent")
+			} else {
+				emit("end limit")
+			}
+		}
+	}
+}
+
 // directedManual: start / stop / restart requests on a running, a finished and an unknown process,
 // for a plain process and for a replica of a replicated one (name differs from the replica name).
 func (h *supH) directedManual(emit func(string)) {
@@ -1216,6 +1265,7 @@ func (h *supH) Gen(r *rand.Rand, tier string, emit func(string)) {
 	h.directedManual(emit)
 	h.directedRestartSlowStopper(emit)
 	h.directedRestartedDependency(emit)
+	h.directedLateLookup(emit)
 	h.directedExit(emit)
 	h.directedStopThenShutdown(emit)
 	scen, maxProcs, maxSteps := 120, 4, 120
